@@ -120,7 +120,7 @@ def run(ctx):
         if i % 7 == 0:
             F0.header['note'] = 'user entry\twith tab'
         chain = [rng.choice(transformations()) for _ in range(rng.randint(1, 3 if quick else 4))]
-        if i % 10 == 3:
+        if i % 20 == 3:
             # a long chain (the theorem covers every length; the numbering loop must too): size-preserving steps only
             F0 = rand_cnf()
             k1 = [t for t in transformations() if t[0] in ('flip', 'shuffle')]
